@@ -4,7 +4,7 @@ A state is a history (list of ops); the real object is always rebuilt by replayi
 rustworkx graph does not preserve its free-index stack, so copies have different futures).  States are merged on K_full = graph
 (index -> component, ordered successor / predecessor lists) + every registry as an ordered item list + component parameters and limits
 + the ghost free-index list.  Search is breadth first, bounded by depth and by a deviation budget (cost of unusual arguments)."""
-import json, copy, collections, itertools, hashlib, multiprocessing as mp
+import os, json, copy, collections, itertools, hashlib, multiprocessing as mp
 from . import common
 from .common import NPROC, quiet_call
 from sysloss.system import System
@@ -569,6 +569,8 @@ def _check_state(task):
 def explore(run, seeds, D, B, letters="RCIM", trans_check=None, state_check=None, phase_ops=True, max_states=None, note_family="edits", analysis_op=False, werror=False, odd=False):
     """Breadth-first search; returns dict of statistics.  Violating states / transitions are recorded on `run` and not expanded.
     werror: the LAST call of every transition runs with warnings promoted to errors (a warning then rejects the call); prefixes run normally."""
+    if os.environ.get("VERIF_SMOKE_E2CAP"):   # development aid only (smoke-testing the thorough tier): never set by the registered commands
+        max_states = int(os.environ["VERIF_SMOKE_E2CAP"])
     _CTX.update(B=B, letters=letters, trans_check=trans_check, state_check=state_check, phase_ops=phase_ops, analysis_op=analysis_op, werror=werror, odd=odd)
     ctx = mp.get_context("fork")
     pool = ctx.Pool(NPROC) if NPROC > 1 else None
